@@ -692,6 +692,14 @@ def sym_str(v):
     return r
 
 
+def safe_str(v):
+    """for harness reports only: the text of a value the code under test returned, whatever state it is in"""
+    try:
+        return sym_str(v)
+    except Exception as e:
+        return '<%s whose __str__ raises %s>' % (type(v).__name__, type(e).__name__)
+
+
 def sym_fmt(v, conv, spec):
     """one replacement field of an f-string"""
     if conv == ord('r'):
